@@ -156,6 +156,10 @@ def solve_one(idx):
         if not done:
             done = attempt(levels[-1], RLIMIT_2, "z3-seed7", seed=7, want_model=True)
         res["trail"] = trail
+        if res["verdict"] != "proved" and ob.get("region") is not None:
+            # known-finding support: is the obligation discharged once the recorded failing region is excluded?
+            s4 = _mk_solver(RLIMIT_1); s4.add(*ob["pc"]); s4.add(*ob["region"]); s4.add(neg)
+            res["proved_outside_region"] = s4.check() == z3.unsat
     except Exception as e:      # noqa
         import traceback
         res.update(verdict="error", reason=f"{type(e).__name__}: {e} | " + traceback.format_exc()[-900:].replace("\n", " / "))
